@@ -56,6 +56,8 @@ def h_borrow(n: int, k0: int, k1: int, k2: int, k3: int, o0: int, o1: int, o2: i
     items = []
     for i in range(n):
         items.append(Item(keys[i], "0.%d" % i))
+    if P("none_item") is not None and P("none_item") < n:
+        items[P("none_item")] = None  # None is an item like any other
     kd = pick(KINDS, kind)
     Wa = World("a")
     D = Driver(Wa, sync_only=True)
@@ -194,6 +196,8 @@ def jobs(tier):
         # operation sequences (the tool operation uses one representative tool, j=1) ...
         for o0 in range(NOPS):
             J.append({"module": "c07", "fn": "h_borrow", "part": {"N": 3, "n": 3, "j": 1, "L": L + 1, "kind": kind, "t": C07_APPS.index("islice2"), "o0": o0}, "timeout": T})
+    for o0 in range(NOPS):
+        J.append({"module": "c07", "fn": "h_borrow", "part": {"N": 3, "n": 3, "j": 1, "L": L, "kind": (0 if o0 % 2 else 1), "t": C07_APPS.index("islice2"), "o0": o0, "none_item": 1}, "timeout": T})
     # ... and every tool handed the borrowed iterator as the first operation
     for t in range(NT):
         for kind in ((0, 3) if q else (0, 1, 2, 3)):
@@ -203,7 +207,7 @@ def jobs(tier):
 
 LEVEL = "other"
 BOUNDS = {
-    "quick": "operation sequences of length 4 (3 items, tool operation = islice with j=1) over {next borrowed, next underlying, close borrowed, close via iter(borrowed), asend(None), re-borrow the underlying, borrow the handle itself, pass to a tool (j<=3 items) then close it}; every tool of the application table (20 iterator tools, 6 aggregations) as first operation (j=0..3 items, N<=3) followed by 1 further symbolic operation and the owner draining the rest; underlying: async generator, class with aclose, bare class, class with the full asend/athrow/aclose protocol; N<=3 items, keys unbounded",
+    "quick": "operation sequences of length 4 (3 items, tool operation = islice with j=1) over {next borrowed, next underlying, close borrowed, close via iter(borrowed), asend(None), re-borrow the underlying, borrow the handle itself, pass to a tool (j<=3 items) then close it}; every tool of the application table (20 iterator tools, 6 aggregations) as first operation (j=0..3 items, N<=3) followed by 1 further symbolic operation and the owner draining the rest; underlying: async generator, class with aclose, bare class, class with the full asend/athrow/aclose protocol; N<=3 items, keys unbounded; operation sequences of length 3 also with None as the second item",
     "thorough": "sequences of length 5 / tool followed by 2 operations, all three underlying kinds",
 }
 OUTSIDE = ["athrow through the handle (forwarded to the underlying iterator by design)", "concurrent use of handle and underlying iterator", "sequences longer than the bound"]
